@@ -445,8 +445,8 @@ SEEDS = [
     "1 2 3 λ3|X;†W", "λX;†", "3(λnX;†,)", "3 λ:2<[X]‹x;†", "6 λ:2<[X]:‹x$2-x+;†", "3 λ:[‹:ßx];†", "1 2 x", "x", "1 2 X 3", "1[X]2",
     "4(n λ:2>[:3>[X|d]|N];†,)", "3(2(n2=[X]n,)n,)", "3(n2=[x]2(n,))", "5 ƛλ:[:‹x+];†;", "4 λ:[:‹x,];†", "3 5 λ2|:[$‹$x|_];†",
     "3 {:|:2=[X]:,‹}", "5(n[n2=[X]|0])W", "3(n1=[x|n,]7,)", "2 λ3(n2=[x]n)X9;†W", "3 λ:[‹x]n;†", "4 λ:[‹x:,]X;†", "3 λ1 ~λ2|X;;†W",
-    "@f:1|:›; 3 ←f †W", "@h:2|; 3 4 ←h † -", "@e:a|; 8 3 ←e †W", "@f:0|1 2 3; ←f †W", "@f:2|+:; 5 6 ←f †W", "@f:1|; 4 ←f ß† W", "@f:*|W; 1 2 2 ←f †",
-    "3 λ_X;†", "3 λ_X;†W", "⟨1|2|3⟩ λ:2<[_X]d;M", "1 2 λ2|__X;†W", "4 λ_ _X;†", "2(_X)W", "5 λ_ λ_X;† ;†W", "@f:1|_X;4@f;W",
+    "@f:0|1 2 3; ←f †W", "@f:2|+:; 5 6 ←f †W", "@f:1|; 4 ←f ß† W", "@f:*|W; 1 2 2 ←f †",
+    "1 2 λ2|__X;†W", "4 λ_ _X;†", "2(_X)W", "5 λ_ λ_X;† ;†W", "@f:1|_X;4@f;W",
     "10 λ2|n;†", "1 2 λ2|n W;†", "3 4 @f:2|n;@f;", "@f:2|!;1@f;", "@f:0|n;@f;", "λ0|!;†", "3 λ0|?;†", "⟨?|?⟩", "5 ƛ⟨n|n⟩;",
 ]
 
